@@ -114,6 +114,7 @@ type Run struct {
 	Replies   int
 	Syncs     int
 	CliMuts   int
+	Cuts      int
 	SyncDrops int
 	Reorders  int
 }
@@ -144,6 +145,7 @@ type harness struct {
 	lastProduced string
 	shallow      bool // no message-level comparison (see Case.messageLevel)
 	txCount      int  // transitions the source has finished
+	down         bool // the connection is cut: hook events are ignored, changes still recorded
 	txAccepted   bool // the last of them was accepted
 	syncOut      bool // a full sync has been executed by the server and not applied by the client yet
 }
@@ -235,6 +237,13 @@ func (h *harness) emit(line string) {
 }
 
 func (h *harness) point(id string) {
+	h.mu.Lock()
+	down := h.down
+	h.mu.Unlock()
+	if down {
+		// the connection is being re-established: the handshake is not a message of the model
+		return
+	}
 	switch id {
 	case "srv:push":
 		h.mu.Lock()
@@ -421,7 +430,9 @@ func Exec(c Case) *Run {
 		run.Err = err.Error()
 		return run
 	}
-	srv.Listener.Store(&l)
+	tl := &trackListener{Listener: l}
+	var wl net.Listener = tl
+	srv.Listener.Store(&wl)
 	iv := 3 * time.Millisecond
 	if c.SlowPush {
 		iv = 10 * time.Minute
@@ -438,6 +449,8 @@ func Exec(c Case) *Run {
 	defer registry.Delete(srv)
 	defer registry.Delete(cli)
 	srv.Start(nil)
+	cli.ConnRetryDelay = 20 * time.Millisecond
+	cli.ConnRetryBackoff = 0
 	cli.Start(nil)
 	select {
 	case <-cli.Mach.When1(ssC.Ready, nil):
@@ -480,6 +493,7 @@ func Exec(c Case) *Run {
 		}
 	}
 	var cliWG sync.WaitGroup
+opsLoop:
 	for _, op := range c.Ops {
 		p := strings.Split(op, ":")
 		switch p[0] {
@@ -572,6 +586,59 @@ func Exec(c Case) *Run {
 			cliWG.Wait()
 		case "wait":
 			settle()
+		case "cut":
+			// the connection drops (every accepted conn is closed on the server side); the source may
+			// change while the client is away; the client reconnects and the handshake hands over
+			// the source's clocks of that moment
+			settle()
+			h.mu.Lock()
+			h.down = true
+			h.mu.Unlock()
+			tl.closeAll()
+			select {
+			case <-cli.Mach.WhenNot1(ssC.Ready, nil):
+			case <-time.After(3 * time.Second):
+				run.Failures = append(run.Failures, "the connection was cut but the client never left Ready")
+			}
+			for _, q := range p[1:] {
+				if len(q) >= 2 {
+					// q = "+a" / "-a": a local change of the source during the outage
+					if q[0] == '+' {
+						src.Add1(st(q[1:]), nil)
+					} else {
+						src.Remove1(st(q[1:]), nil)
+					}
+				}
+			}
+			back := false
+			select {
+			case <-cli.Mach.When1(ssC.Ready, nil):
+				back = true
+			case <-time.After(8 * time.Second):
+				run.Failures = append(run.Failures, "after a dropped connection the client did not come back (not Ready within 8s): "+cli.Mach.String())
+			}
+			if back {
+				select {
+				case <-srv.Mach.When1(ssS.Ready, nil):
+				case <-time.After(3 * time.Second):
+				}
+				time.Sleep(15 * time.Millisecond)
+			}
+			h.mu.Lock()
+			h.inflight = nil
+			h.pendingSync = 0
+			h.syncOut = false
+			h.lastProduced = snapKey(src.Time(nil))
+			h.down = false
+			if back {
+				run.Cuts++
+				h.emit("conv reconnect")
+			}
+			h.lastCliEv = time.Now()
+			h.mu.Unlock()
+			if !back {
+				break opsLoop
+			}
 		case "drift":
 			// the client's copy is off by a tick on one state
 			// nothing in flight: what the next diff will be computed against is the server's lastPush
@@ -730,6 +797,13 @@ func GenCase(r *rand.Rand) Case {
 			held = false
 		case x < 86 && !held:
 			c.Ops = append(c.Ops, "drift", "loc:add:c", "wait")
+		case x < 92 && !held && !c.SlowPush:
+			// the connection drops; the source may move on meanwhile
+			op := "cut"
+			for j, m := 0, r.Intn(3); j < m; j++ {
+				op += ":" + []string{"+", "+", "-"}[r.Intn(3)] + states[r.Intn(4)]
+			}
+			c.Ops = append(c.Ops, op, "wait")
 		default:
 			c.Ops = append(c.Ops, "wait")
 		}
@@ -739,4 +813,31 @@ func GenCase(r *rand.Rand) Case {
 	}
 	c.Tag = "random"
 	return c
+}
+
+// trackListener remembers the accepted connections so that a scenario can cut them.
+type trackListener struct {
+	net.Listener
+	mu    sync.Mutex
+	conns []net.Conn
+}
+
+func (t *trackListener) Accept() (net.Conn, error) {
+	c, err := t.Listener.Accept()
+	if err == nil {
+		t.mu.Lock()
+		t.conns = append(t.conns, c)
+		t.mu.Unlock()
+	}
+	return c, err
+}
+
+func (t *trackListener) closeAll() {
+	t.mu.Lock()
+	cs := t.conns
+	t.conns = nil
+	t.mu.Unlock()
+	for _, c := range cs {
+		c.Close()
+	}
 }
